@@ -77,6 +77,7 @@ def replay_stream(st, in_bits):
     wires = {i: b for i, b in enumerate(in_bits)}
     tmp = {}
     undef = []
+    big = st.get("ngates", 0) > 20000  # see e2lib.circuit_bits
 
     def get(t, i, where):
         d = tmp if t else wires
@@ -94,9 +95,9 @@ def replay_stream(st, in_bits):
             else:
                 y = get(bt, b, where)
                 if op == XOR:
-                    v = z3.Xor(x, y)
+                    v = z3.Not(x == y) if big else z3.Xor(x, y)
                 elif op == XNOR:
-                    v = z3.Not(z3.Xor(x, y))
+                    v = (x == y) if big else z3.Not(z3.Xor(x, y))
                 elif op == AND:
                     v = z3.And(x, y)
                 elif op == OR:
